@@ -460,7 +460,12 @@ ares_status_t ares_cookie_validate(ares_query_t            *query,
   }
 
   if (cookie->state == ARES_COOKIE_GENERATED) {
-    ares_cookie_clear(cookie);
+    /* Keep the client cookie: requests carrying it may still be in flight, and
+     * a response that echoes it together with a server cookie must still be
+     * able to prove that the server supports cookies after all (the cookie-less
+     * response may have been spoofed).  No cookie is sent while in the
+     * UNSUPPORTED state, and a new one is generated once the regression timer
+     * expires. */
     cookie->state = ARES_COOKIE_UNSUPPORTED;
     memcpy(&cookie->unsupported_ts, now, sizeof(cookie->unsupported_ts));
   }
